@@ -125,7 +125,7 @@ def shard(task):
             vm = int(f.read().split()[0]) * os.sysconf("SC_PAGE_SIZE")
         resource.setrlimit(resource.RLIMIT_AS, (vm + MEM_HEADROOM, resource.RLIM_INFINITY))
     sh = Shard()
-    pfile = os.path.join(os.path.dirname(os.getcwd()), f"progress-{os.getpid()}.txt")
+    pfile = os.path.join(os.path.dirname(os.getcwd()), f"progress-{digest([kind, arg])}.txt")
 
     def progress(s):
         with open(pfile, "w") as f:
@@ -177,9 +177,9 @@ def shard(task):
     elif kind == "tokens":
         bidx, lo, hi = arg
         base = mutations.build(mutations.base_archives()[bidx])
-        for label, toks in itertools.islice(mutations.header_mutants(base["tokens"]), lo, hi):
+        for label, toks, outer in itertools.islice(mutations.mutants(base, PAIRS[tier]), lo, hi):
             try:
-                img = mutations.seal(base, toks)
+                img = mutations.seal(base, toks, outer)
             except Exception:
                 sh.count("mutant_not_sealable")
                 continue
@@ -209,9 +209,9 @@ def replay(case):
                 return probe(img, base["password"], maxlen, lambda s: None, str(label))[0]
     if case["kind"] == "tokens":
         base = mutations.build(mutations.base_archives()[case["base"]])
-        for label, toks in mutations.header_mutants(base["tokens"]):
+        for label, toks, outer in mutations.mutants(base, "all"):
             if label == case["label"]:
-                return probe(mutations.seal(base, toks), base["password"], maxlen, lambda s: None, label)[0]
+                return probe(mutations.seal(base, toks, outer), base["password"], maxlen, lambda s: None, label)[0]
     if case["kind"] == "splice":
         bs = basegen.all_bases(case["tier"])
         img = bs[case["a"]]["blob"][: case["ca"]] + bs[case["b"]]["blob"][case["cb"]:]
@@ -220,6 +220,9 @@ def replay(case):
         b = next(x for x in basegen.all_bases(case["tier"]) if x["name"] == case["base"])
         return probe(b["blob"], case["pw"], maxlen, lambda s: None, "password")[0]
     return []
+
+
+PAIRS = {"quick": "end", "thorough": "all"}
 
 
 def main(tier="quick", seed=0, only=None):
@@ -236,7 +239,7 @@ def main(tier="quick", seed=0, only=None):
     tasks += [("splice", (a, b), maxlen, tier) for a in range(nb) for b in range(nb) if a != b]
     for i, spec in enumerate(mutations.base_archives()):
         base = mutations.build(spec)
-        n = sum(1 for _ in mutations.header_mutants(base["tokens"]))
+        n = sum(1 for _ in mutations.mutants(base, PAIRS[tier]))
         step = 150
         tasks += [("tokens", (i, lo, min(lo + step, n)), maxlen, tier) for lo in range(0, n, step)]
     tasks.append(("password", None, maxlen, tier))
@@ -251,7 +254,13 @@ def main(tier="quick", seed=0, only=None):
             results.append((idx, status, res))
             if status == "crash" and len(tasks[idx]) == 4:
                 # a C library may abort() when malloc fails under the artificial limit: decide without the limit
-                retry = pool.map(f"{MODULE}:shard", [tuple(tasks[idx]) + ("metered",)], soft=0, hard=1800)[0]
+                try:
+                    with open(os.path.join(root, f"progress-{digest([tasks[idx][0], tasks[idx][1]])}.txt")) as f:
+                        chk.extra.setdefault("crash_under_rlimit_at", []).append(f.read()[:300])
+                except OSError:
+                    pass
+                with Pool(1, tag="vpm") as second:  # (the outer pool is in the middle of run(): it cannot be re-entered)
+                    retry = second.map(f"{MODULE}:shard", [tuple(tasks[idx]) + ("metered",)], soft=0, hard=1800)[0]
                 if retry[0] == "ok":
                     results[-1] = (idx, "ok", retry[1])
                     chk.counters["crash_under_rlimit_rerun_metered_ok"] = chk.counters.get("crash_under_rlimit_rerun_metered_ok", 0) + 1
@@ -278,7 +287,7 @@ def main(tier="quick", seed=0, only=None):
             f"inputs: every truncation length and every single-bit flip of {len(bases)} base archives; splices of two bases at the section "
             "boundaries {32, start of packed data, start of header}; every single-token mutation of 10 reference-written headers (NUMBER "
             "tokens set to {0,1,2^7k-1,2^7k,2^32-1,2^32,2^63-1,2^63,2^64-1}, every property id replaced by every id 0..26 and FF, every bit "
-            "of every flag byte, bit vectors, CRCs, FILETIMEs, names, method ids, AES properties), each section dropped / duplicated / "
+            "of every flag byte, bit vectors, CRCs, FILETIMEs, names, method ids, AES properties; for packed headers the same single-token mutations of the outer streams info that describes the packed header; two deviations: a count NUMBER set to 2^32 / 2^63-1 together with one property id replaced by End (thorough: by every id)), each section dropped / duplicated / "
             "swapped with its successor, FilesInfo property sizes left stale and re-fitted; all outer CRCs re-sealed (raw, LZMA- and "
             f"AES-encoded headers); missing and 5 wrong passwords. On every input that opens: every call sequence of length <= {maxlen} over "
             f"{OPS} on one session (incl. extract twice without reset). Oracle: each call returns or raises an Exception within 8 s + 50 us/byte, "
